@@ -640,9 +640,11 @@ CdAfter ==
 DevGoexitUnwindsLateFrame ==
   /\ At("cd", "after") /\ Quiet /\ Late /\ MayReal(DevGoexit)
   /\ CdLeave(TRUE) /\ dev' = dev \cup {"goexit"} /\ mode' = "real"
+\* Since /repo commit 177c15f (exitDepth) this IS what the code does: with DevGoexit = FALSE the step belongs to
+\* the real behaviour (mode unchanged); with DevGoexit = TRUE (the tree before the repair) it is the prescribed step.
 FixLateFrameReturns ==
-  /\ At("cd", "after") /\ Quiet /\ Late /\ MayFixed(DevGoexit)
-  /\ CdLeave(FALSE) /\ mode' = "fixed" /\ UNCHANGED dev
+  /\ At("cd", "after") /\ Quiet /\ Late /\ (IF DevGoexit THEN MayFixed(DevGoexit) ELSE TRUE)
+  /\ CdLeave(FALSE) /\ mode' = (IF DevGoexit THEN "fixed" ELSE mode) /\ UNCHANGED dev
 CdThrown ==
   /\ Running /\ Top.k = "cd" /\ ~Quiet
   /\ stack' = Front(stack) /\ ev' = <<Event("cd.out", 1)>>
